@@ -23,6 +23,102 @@ def run(ctx):
     prog = ctx.progs["rumqttd"]
     panic_scope(ctx, "R-C13-panic", "rumqttd", ENTRIES, "C13", "commit log API")
     ctx.guarded("R-C13-shape", shape, ctx, prog)
+    ctx.guarded("R-C13-guards", guards, ctx, prog)
+
+
+def guards(ctx, prog):
+    """R-C13-guards: the comparisons the audited index/subtraction sites of CommitLog::readv and
+    Segment::readv rely on are present and dominate those sites (premises of the audit entries)"""
+    rule = "R-C13-guards"
+    rd = prog.one(r"^segments::CommitLog::<T>::readv$")
+    dom = dominators(rd)
+
+    def cmp_switches(body, op_names, a_pred, b_pred):
+        """[(switch_bb, true_target, false_target)] for switches on `a OP b` with predicates on the operands' provenance"""
+        out = []
+        for bi, b in enumerate(body.blocks):
+            t = b["t"]
+            if t["k"] != "switch" or b.get("cleanup"):
+                continue
+            l = op_local(t["on"])
+            d = single_def(body, l) if l is not None else None
+            if d and d[2] == "assign" and d[3]["rv"]["k"] == "bin" and d[3]["rv"]["op"] in op_names:
+                sa = flatten_src(provenance(body, d[3]["rv"]["a"]))
+                sb = flatten_src(provenance(body, d[3]["rv"]["b"]))
+                if a_pred(sa) and b_pred(sb):
+                    zero = [x for v, x in t["targets"] if v == 0]
+                    if zero:
+                        out.append((bi, t["otherwise"], zero[0], d[3]["rv"]["op"]))
+        return out
+
+    def is_cursor0(ss):
+        return any(s.kind == "param" and s.l == 2 and s.fields[-1:] == ["0"] for s in ss)
+
+    def is_cursor1(ss):
+        return any(s.kind == "param" and s.l == 2 and s.fields[-1:] == ["1"] for s in ss)
+
+    def is_field(name):
+        return lambda ss: any(getattr(s, "fields", None) and s.fields[-1] == name and s.kind in ("param", "field") and s.l == 1 for s in ss)
+    idx_sites = [bb for bb, t in rd.calls() if re.search(r"VecDeque<T, A> as std::ops::Index<usize>>::index$", callee_path(t)) and not rd.is_cleanup(bb)]
+    ctx.floor(rule, "segments[idx] sites in CommitLog::readv", len(idx_sites), 2)
+    # G1: cursor.0 > tail → return, before any index
+    g1 = cmp_switches(rd, ("Gt",), is_cursor0, is_field("tail"))
+    if g1 and all(g1[0][2] in dom.get(i, ()) for i in idx_sites) and not (reachable(rd, (g1[0][1],)) & set(idx_sites)):
+        ctx.ok(rule, rd.id, "`cursor.0 > tail` returns Done before any segments[idx]")
+    else:
+        ctx.violation(rule, rd.id, "missing guard cursor.0 > tail", "segments[idx] is reachable for a cursor beyond the tail segment (index out of range → panic)", site=rd.fn_loc())
+    # G2: cursor.0 < head → cursor rewritten to head, before the subtraction cursor.0 - head
+    g2 = cmp_switches(rd, ("Lt",), is_cursor0, is_field("head"))
+    subs = [bi for bi, b in enumerate(rd.blocks) if b["t"]["k"] == "assert" and b["t"]["msg"].startswith("Overflow:Sub") and not b.get("cleanup")]
+    if g2 and subs and all(g2[0][0] in dom.get(s, ()) for s in subs[:1]):
+        # on the true edge (cursor.0 < head) every path to the subtraction assigns cursor
+        tr = g2[0][1]
+        assigns = set()
+        for bi, b in enumerate(rd.blocks):
+            for st in b["s"]:
+                if "lhs" in st and st["rv"]["k"] == "agg" and st["rv"].get("ak") == "tuple" and any(
+                        getattr(s, "fields", None) and s.fields[-1] == "head" for o in st["rv"]["ops"] for s in flatten_src(provenance(rd, o))):
+                    assigns.add(bi)
+        if assigns and not (reachable(rd, (tr,), avoid_blocks=assigns) & set(subs[:1])):
+            ctx.ok(rule, rd.id, "`cursor.0 < head` jumps the cursor to head before `cursor.0 - head`")
+        else:
+            ctx.violation(rule, rd.id, "stale cursor not rewound to head", "with cursor.0 < head the subtraction cursor.0 - head is reached without moving the cursor to head", site=rd.fn_loc())
+    else:
+        ctx.violation(rule, rd.id, "missing guard cursor.0 < head", "`cursor.0 - head` is not preceded by the `cursor.0 < head` test", site=rd.fn_loc())
+    # G3: first segment: absolute_offset > cursor.1 → cursor.1 raised; loop guard cursor.0 < tail before the second index
+    g3 = cmp_switches(rd, ("Gt",), is_field_any("absolute_offset"), is_cursor1_or_local(rd))
+    if g3:
+        ctx.ok(rule, rd.id, "`segment.absolute_offset > cursor.1` raises the offset before reading the first segment")
+    else:
+        ctx.violation(rule, rd.id, "missing guard absolute_offset > cursor.1", "Segment::readv can be entered with cursor.1 below the segment's absolute_offset (subtraction underflow)", site=rd.fn_loc())
+    g4 = cmp_switches(rd, ("Lt",), lambda ss: True, is_field("tail"))
+    if g4 and len(idx_sites) >= 2 and any(g[1] in dom.get(idx_sites[-1], ()) or g[1] in dom.get(max(idx_sites), ()) for g in g4):
+        ctx.ok(rule, rd.id, "the in-loop segments[idx] is under the loop guard `cursor.0 < tail`")
+    else:
+        ctx.violation(rule, rd.id, "missing loop guard", "the in-loop segments[idx + 1] is not under `cursor.0 < tail`", site=rd.fn_loc())
+    # G5: `len -= next_offset - cursor.1` under next_offset >= cursor.1
+    g5 = cmp_switches(rd, ("Ge",), lambda ss: True, lambda ss: True)
+    if g5 and len(subs) >= 2 and any(g[1] in dom.get(s, ()) for g in g5 for s in subs[1:]):
+        ctx.ok(rule, rd.id, "`next_offset - cursor.1` is under `next_offset >= cursor.1`")
+    else:
+        ctx.violation(rule, rd.id, "missing guard next_offset >= cursor.1", "the remaining-length update subtracts without the `next_offset >= cursor.1` test", site=rd.fn_loc())
+    # Segment::readv: data[idx..limit] only when idx < len, limit clamped to len
+    sr = prog.one(r"^segments::segment::Segment::<T>::readv$")
+    sdom = dominators(sr)
+    sl = [bb for bb, t in sr.calls() if re.search(r"Vec<T, A> as std::ops::Index<I>>::index$", callee_path(t)) and not sr.is_cleanup(bb)]
+    ge = cmp_switches(sr, ("Ge",), lambda ss: True, lambda ss: any(s.kind == "call" and s.path.endswith("Segment::<T>::len") for s in ss))
+    if sl and len(ge) >= 2 and all(any(g[2] in sdom.get(s, ()) for g in ge) for s in sl):
+        ctx.ok(rule, sr.id, "data[idx..limit] is under `idx >= len()` false edge, with limit clamped by `limit >= len()`")
+    else:
+        ctx.violation(rule, sr.id, "missing bounds tests", "Segment::readv slices data[idx..limit] without the idx/limit >= len() tests", site=sr.fn_loc())
+
+
+def is_field_any(name):
+    return lambda ss: any(getattr(s, "fields", None) and s.fields[-1] == name for s in ss)
+
+
+def is_cursor1_or_local(body):
+    return lambda ss: any(getattr(s, "fields", None) and s.fields[-1:] == ["1"] for s in ss)
 
 
 def mutating_calls_on_field(prog, field, methods):
